@@ -67,6 +67,8 @@ def rust_type(ft):
         return ft["id"]
     if f == "uuid":
         return "apache_avro::Uuid"
+    if f == "stdduration":
+        return "std::time::Duration"
     raise vf.ToolError(f"renderer: unknown field type {ft}")
 
 
